@@ -1,7 +1,6 @@
 package world
 
 import (
-	"strconv"
 	"encoding/json"
 	"fmt"
 
@@ -50,10 +49,11 @@ func (w *World) Kubelet(name, tr string) bool {
 			return false
 		}
 		// the three ways a Running pod is not Ready: no Ready condition at all, Ready=False (probe failing),
-		// Ready=Unknown (node lost); which one is a function of the pod's history, so replays agree
-		rv, _ := strconv.Atoi(p.ResourceVersion)
+		// Ready=Unknown (node lost); taken in turn (a per-scenario counter, so replays and twins agree)
+		w.unreadyN++
+		k := w.unreadyN
 		return mut(func(p *corev1.Pod) {
-			switch rv % 3 {
+			switch k % 3 {
 			case 0:
 				p.Status.Conditions = nil
 			case 1:
